@@ -45,8 +45,9 @@ justification:
      `def t(c, pos)` are pre-split and refused ("No idea what '-y' is!") — flag-like positional values are not a
      documented form (`inv t --pos=-xyz` is, and is covered);
   6. `OptValueOK` (documented, "Optional flag values / Resolving ambiguity"): an optional-value flag takes a value
-     only when every positional of the task is filled and the value is not a task name; the value is not flag-like,
-     or no piece of it (the token, its part before `=`, its first two characters) is a flag of the task — then it "is
+     only when every positional of the task is filled, the value is not a task name and is not spelled like a core
+     flag (such a token belongs to the core: `is_core_flag_in_task_context`); the value is not flag-like,
+     or no piece of it (the token, its part before `=`, its first two characters) is a flag of the task or of the core — then it "is
      interpreted literally and stored as the value";
   7. `Item.optBare` + `FollowsBare` + `ChainOK` (same section): a bare optional-value flag comes after all
      positionals and is followed by another FLAG of the same task (whose first piece is not a task name) or ends the
